@@ -2,6 +2,7 @@
 #include "harness/codec.h"
 #include <climits>
 #include <cstdarg>
+#include <thread>
 
 namespace vk {
 
@@ -123,6 +124,35 @@ std::string body_C01(Ctx& c, CaseIn& in) {
     if (r.position() != bytes.size()) return fmt("leftover: reader %s at %zu of %zu", rk_name(rk), r.position(), bytes.size());
     c.rep.label(std::string("reader:") + rk_name(rk));
     c.rep.label("pairings");
+  }
+  // FdReader over a PIPE that delivers the stream in two bursts: a short read(2) must not be taken for a
+  // complete block. (The oracle is schedule independent: whatever the timing, the values must come back.)
+  if (have_first && sup_r(R_Fd) && first_bytes.size() >= 2 && first_bytes.size() <= 4096 && tp.below(4) == 0) {
+    int fds[2];
+    if (pipe(fds) == 0) {
+      const size_t split = 1 + (size_t)tp.below(first_bytes.size() - 1);
+      const Bytes data = first_bytes;
+      std::thread feeder([fd = fds[1], data, split] {
+        size_t off = 0;
+        while (off < split) { ssize_t w = ::write(fd, data.data() + off, split - off); if (w <= 0) break; off += (size_t)w; }
+        usleep(300);
+        while (off < data.size()) { ssize_t w = ::write(fd, data.data() + off, data.size() - off); if (w <= 0) break; off += (size_t)w; }
+        ::close(fd);
+      });
+      std::string verdict;
+      {
+        ReaderBox r; r.open_fd(fds[0]);
+        for (size_t i = 0; i < items.size() && verdict.empty(); i++) {
+          auto o2 = items[i].t->make();
+          int s = o2->read(r);
+          if (s != 0) verdict = fmt("read-failed: value %zu read by FdReader from a pipe fed in two bursts (%zu + %zu bytes): %s", i, split, data.size() - split, err_name(s));
+          else if (!value_equal(*items[i].t->schema, o2->get(), items[i].expect)) verdict = fmt("value-differs: value %zu read by FdReader from a pipe fed in two bursts (%zu + %zu bytes): got %s want %s", i, split, data.size() - split, to_text(*items[i].t->schema, o2->get()).c_str(), to_text(*items[i].t->schema, items[i].expect).c_str());
+        }
+      }
+      feeder.join();
+      c.rep.label("reader:FdReader-over-pipe-two-bursts");
+      if (!verdict.empty()) return verdict;
+    }
   }
   if (nontrivial) c.rep.nontriv(case_hash(*in.t, items[0].expect, items.size()));
   if (items.size() >= 2) c.rep.label("multi-value-stream");
